@@ -49,6 +49,9 @@ def deco_src():
     out.append("def FWD_target(x, y='dy', *, z='dz'):\n    return ('T', x, y, z)\n")
     out.append("def F_fwd(a, *args, **kwargs):\n    return ('FW', a, FWD_target(*args, **kwargs))\n")
     out.append("from sigtools import specifiers\n@specifiers.forwards_to_function(FWD_target)\ndef F_declared(a, *args, **kwargs):\n    return ('FD', a, FWD_target(*args, **kwargs))\n")
+    out.append("class Boom(Exception):\n    pass\n")
+    out.append("def F_raise(x, y='dy'):\n    raise Boom(x, y)\n")
+    out.append("def D_raise(func, *args, **kwargs):\n    func(*args, **kwargs)\n    raise LookupError('from the decorator')\n")
     out.append("def DF_pos(func, *args, **kwargs):\n    return ('DFp', func('c0', *args, **kwargs))\n")
     out.append("def DF_kw(func, *args, **kwargs):\n    return ('DFk', func(*args, y='cy', **kwargs))\n")
     fam = {
@@ -273,6 +276,34 @@ def eval_forwarding_decorated(ns, api, kind, which, placement, st):
         check_object(holder().m, comp, [dshape, eff], [D], st, case, base, 'staticmethod:instance', 'fwd')
 
 
+def eval_exceptions(ns, st):
+    """Exceptions of the decorated function and of the decorator come through unchanged."""
+    for api in ('decorator', 'wrapper_decorator'):
+        for Dn, fn in (('D1_none', 'F_raise'), ('D1_pok', 'F_raise'), ('D_raise', 'CF_vx'), ('D_raise', 'F_raise')):
+            D, f = ns[Dn], ns[fn]
+            st.inc('states')
+            g = build(api, D, f)
+            comp = compose([D], f)
+            case = {'api': api + '+exceptions', 'D': Dn, 'f': fn}
+            for a, k in callsem.call_list(('x', 'y', 'd1'), 3):
+                w, got = callsem.run_call(comp, a, k), callsem.run_call(g, a, k)
+                st.inc('evaluations')
+                if not outcome_eq(w, got) or (w[0] == 'raise' and w[2] != got[2]):
+                    st.violation('not-call-transparent', case,
+                                 {'api': api, 'decorator': Dn, 'decorated': fn, 'call': callsem.describe_call(a, k),
+                                  'composition': repr(w)[:200], 'wrapped': repr(got)[:200]}, {'object': 'exceptions'})
+                    break
+    for combo in (('CF_vx', 'F_raise'), ('F_raise',)):
+        comb = W.Combination(*[ns[n_] for n_ in combo])
+        st.inc('states')
+        r = callsem.run_call(comb, (1, 2), {})
+        st.inc('evaluations')
+        if r[0] != 'raise' or r[1] != 'Boom':
+            st.violation('not-call-transparent', {'api': 'Combination+exceptions', 'functions': list(combo)},
+                         {'api': 'Combination', 'functions': list(combo), 'outcome': repr(r)[:200], 'expected': 'Boom propagates'},
+                         {'object': 'exceptions'})
+
+
 def eval_combination(ns, fam, combo, st):
     funcs = [ns['CF_' + nm] for nm in combo]
     case = {'api': 'Combination', 'functions': list(combo)}
@@ -344,6 +375,7 @@ def work_items(tier):
             items.append(('stackreps3', api, kinds, 'function', 0, 0))
     items.append(('forwarding', None, None, None, 0, 0))
     items.append(('fwd_decorated', None, None, None, 0, 0))
+    items.append(('exceptions', None, None, None, 0, 0))
     items.append(('combination', None, None, None, 0, 0))
     return items
 
@@ -383,6 +415,8 @@ def shard(tier, sh):
                     if 'y' in space.kwpass(fshape):
                         for placement in ('function', 'method'):
                             eval_forwarding(ns, 'kw', fshape, placement, st)
+            elif kind == 'exceptions':
+                eval_exceptions(ns, st)
             elif kind == 'fwd_decorated':
                 for api in ('decorator', 'wrapper_decorator'):
                     for k in OWN:
@@ -439,6 +473,8 @@ def replay(art):
         ns = batch.index
         if c['api'] == 'Combination':
             eval_combination(ns, fam, tuple(c['functions']), st)
+        elif c['api'].endswith('+exceptions'):
+            eval_exceptions(ns, st)
         elif c['api'].endswith('+forwarding'):
             eval_forwarding_decorated(ns, c['api'][:-len('+forwarding')], c['kinds'][0], c['which'], c['placement'], st)
         elif c['api'] == 'wrapper_decorator+args':
